@@ -888,6 +888,37 @@ class GraphWorld:
                 {"ev": "stats", "via": via, "manifest_stats": st(res["stats"]), "deep_stats": st(ds)}]
 
 
+def web_manifest(w, web, via, broken=()):
+    """POST ?t=stream-manifest through the real web API: the streamed units, mapped back to objects"""
+    from urllib.parse import quote
+    rootcap = w.caps[w.graph["root"]]
+    cap = rootcap["w"] if via == "w" else rootcap["r"]
+    r = web.request("POST", "/uri/" + quote(cap.decode()) + "?t=stream-manifest")
+    vis, error, complete, junk = [], False, False, 0
+    for line in r.body.split(b"\n"):
+        if not line.strip():
+            continue
+        if error:
+            continue                      # the python exception that follows the ERROR: line
+        if line.startswith(b"ERROR:"):
+            error = True
+            continue
+        try:
+            u = json.loads(line)
+        except ValueError:
+            junk += 1
+            continue
+        if u.get("type") == "stats":
+            complete = True
+        elif "path" in u and "cap" in u:      # "file", "directory" (and "unknown" for caps from the future)
+            obj, lvl = w.back.get(u["cap"].encode(), ("?" + u["cap"][:30], "?"))
+            vis.append({"path": [w.name_int(p_) for p_ in u["path"]], "obj": obj, "lvl": lvl})
+        else:
+            junk += 1
+    return {"ev": "web_manifest", "via": via, "code": r.code, "vis": vis, "error": error, "complete": complete, "junk": junk,
+            "broken": list(broken)}
+
+
 def run_c21(args, inp, rng):
     graphs = list((inp or {}).get("graphs", []))
     for i in range(args.n):
@@ -912,6 +943,23 @@ def run_c21(args, inp, rng):
             w = GraphWorld(g, graph, rng, b"%d" % gi)
             for via in ("w", "r"):
                 events += w.observe(via)
+            if gi % 3 == 0:
+                # the same walk streamed by the web API (t=stream-manifest, what `tahoe manifest` uses): on the healthy graph,
+                # then with one non-root directory made unrecoverable (its only share deleted)
+                from webgrid import WebGrid
+                if getattr(g, "_verif_web", None) is None:
+                    g._verif_web = WebGrid(grid=g)
+                web = g._verif_web
+                wrng = random.Random("web-%d-%d" % (args.seed, gi))
+                events.append(web_manifest(w, web, wrng.choice(["w", "r"])))
+                dirs = sorted(o for o, t in graph["type"].items() if t == "dir" and o != graph["root"] and graph["kids"][o])
+                if dirs:
+                    victim = wrng.choice(dirs)
+                    si = w.nm.create_from_cap(w.caps[victim]["r"]).get_storage_index()
+                    for srv, d in g.shares(si).items():
+                        for sh, p in d.items():
+                            os.unlink(p)
+                    events.append(web_manifest(w, web, wrng.choice(["w", "r"]), broken=[victim]))
         except Exception as e:       # the Spec knows no failing traversal of these graphs: the exception is the observation
             import traceback
             events.append({"ev": "crash", "what": "%s: %s" % (type(e).__name__, str(e)[:200]),
